@@ -7,6 +7,7 @@ import CgtModel.Lemmas.SpecTable
 import CgtModel.Lemmas.Sorted
 import CgtModel.Lemmas.RawShape
 import CgtModel.Props.C02
+import CgtModel.Props.Formulas
 /-! # C01 — Same Day, then 30-day (earliest first), then Section 104
 
 Full statement: for every accepted ledger, rule / quantity / acquisition date of every leg (and costs,
